@@ -1,2 +1,296 @@
+// C20: for every node reachable from the document root (in the containment relation the crate's
+// impl_parent! table defines) ask ParentVisitor for its parent and map the answer back to a path by
+// pointer identity.  Reports one record per node: {path, kind, none, got, gotkind}.  Decides nothing.
+use cddl::ast::parent::ParentVisitor;
+use cddl::ast::*;
 use serde_json::{json, Value as J};
-pub fn check(_c: &cddl::ast::CDDL) -> J { json!({"ok":true}) }
+use std::collections::HashMap;
+
+type Key = (&'static str, usize);
+
+struct Walk<'a, 'b> {
+  // (kind, address) -> path
+  paths: HashMap<Key, Vec<usize>>,
+  nodes: Vec<(Vec<usize>, &'static str, CDDLType<'a, 'b>)>,
+}
+
+fn addr<T>(r: &T) -> usize {
+  r as *const T as usize
+}
+
+impl<'a, 'b: 'a> Walk<'a, 'b> {
+  fn add(&mut self, path: &[usize], kind: &'static str, a: usize, t: CDDLType<'a, 'b>) {
+    self.paths.entry((kind, a)).or_insert_with(|| path.to_vec());
+    self.nodes.push((path.to_vec(), kind, t));
+  }
+
+  fn ident(&mut self, p: &[usize], i: &'b Identifier<'a>) {
+    self.add(p, "Identifier", addr(i), CDDLType::Identifier(i));
+  }
+
+  fn gargs(&mut self, p: &[usize], g: &'b GenericArgs<'a>) {
+    self.add(p, "GenericArgs", addr(g), CDDLType::GenericArgs(g));
+    for (i, a) in g.args.iter().enumerate() {
+      let mut q = p.to_vec();
+      q.push(i);
+      self.add(&q, "GenericArg", addr(a), CDDLType::GenericArg(a));
+      let mut r = q.clone();
+      r.push(0);
+      self.type1(&r, &a.arg);
+    }
+  }
+
+  fn gparams(&mut self, p: &[usize], g: &'b GenericParams<'a>) {
+    self.add(p, "GenericParams", addr(g), CDDLType::GenericParams(g));
+    for (i, a) in g.params.iter().enumerate() {
+      let mut q = p.to_vec();
+      q.push(i);
+      self.add(&q, "GenericParam", addr(a), CDDLType::GenericParam(a));
+      let mut r = q.clone();
+      r.push(0);
+      self.ident(&r, &a.param);
+    }
+  }
+
+  fn ty(&mut self, p: &[usize], t: &'b Type<'a>) {
+    self.add(p, "Type", addr(t), CDDLType::Type(t));
+    for (i, tc) in t.type_choices.iter().enumerate() {
+      let mut q = p.to_vec();
+      q.push(i);
+      self.add(&q, "TypeChoice", addr(tc), CDDLType::TypeChoice(tc));
+      let mut r = q.clone();
+      r.push(0);
+      self.type1(&r, &tc.type1);
+    }
+  }
+
+  fn type1(&mut self, p: &[usize], t: &'b Type1<'a>) {
+    self.add(p, "Type1", addr(t), CDDLType::Type1(t));
+    let mut q = p.to_vec();
+    q.push(0);
+    self.type2(&q, &t.type2);
+    if let Some(op) = &t.operator {
+      let mut q = p.to_vec();
+      q.push(1);
+      self.add(&q, "Operator", addr(op), CDDLType::Operator(op));
+      let mut r = q.clone();
+      r.push(0);
+      self.type2(&r, &op.type2);
+    }
+  }
+
+  fn type2(&mut self, p: &[usize], t: &'b Type2<'a>) {
+    self.add(p, "Type2", addr(t), CDDLType::Type2(t));
+    let mut n = 0usize;
+    let mut next = |n: &mut usize| {
+      let mut q = p.to_vec();
+      q.push(*n);
+      *n += 1;
+      q
+    };
+    match t {
+      Type2::Typename { ident, generic_args, .. }
+      | Type2::Unwrap { ident, generic_args, .. }
+      | Type2::ChoiceFromGroup { ident, generic_args, .. } => {
+        let q = next(&mut n);
+        self.ident(&q, ident);
+        if let Some(g) = generic_args {
+          let q = next(&mut n);
+          self.gargs(&q, g);
+        }
+      }
+      Type2::ParenthesizedType { pt, .. } => {
+        let q = next(&mut n);
+        self.ty(&q, pt);
+      }
+      Type2::TaggedData { t, .. } => {
+        let q = next(&mut n);
+        self.ty(&q, t);
+      }
+      Type2::Map { group, .. } | Type2::Array { group, .. } | Type2::ChoiceFromInlineGroup { group, .. } => {
+        let q = next(&mut n);
+        self.group(&q, group);
+      }
+      _ => {}
+    }
+  }
+
+  fn group(&mut self, p: &[usize], g: &'b Group<'a>) {
+    self.add(p, "Group", addr(g), CDDLType::Group(g));
+    for (i, gc) in g.group_choices.iter().enumerate() {
+      let mut q = p.to_vec();
+      q.push(i);
+      self.add(&q, "GroupChoice", addr(gc), CDDLType::GroupChoice(gc));
+      for (j, (ge, _)) in gc.group_entries.iter().enumerate() {
+        let mut r = q.clone();
+        r.push(j);
+        self.entry(&r, ge);
+      }
+    }
+  }
+
+  fn entry(&mut self, p: &[usize], e: &'b GroupEntry<'a>) {
+    self.add(p, "GroupEntry", addr(e), CDDLType::GroupEntry(e));
+    match e {
+      GroupEntry::ValueMemberKey { ge, .. } => {
+        let mut q = p.to_vec();
+        q.push(0);
+        self.add(&q, "ValueMemberKeyEntry", addr(&**ge), CDDLType::ValueMemberKeyEntry(ge));
+        let mut n = 0usize;
+        if let Some(o) = &ge.occur {
+          let mut r = q.clone();
+          r.push(n);
+          n += 1;
+          self.add(&r, "Occurrence", addr(o), CDDLType::Occurrence(o));
+        }
+        if let Some(mk) = &ge.member_key {
+          let mut r = q.clone();
+          r.push(n);
+          n += 1;
+          self.add(&r, "MemberKey", addr(mk), CDDLType::MemberKey(mk));
+          match mk {
+            MemberKey::Type1 { t1, .. } => {
+              let mut s = r.clone();
+              s.push(0);
+              self.type1(&s, t1);
+            }
+            MemberKey::Bareword { ident, .. } => {
+              let mut s = r.clone();
+              s.push(0);
+              self.ident(&s, ident);
+            }
+            _ => {}
+          }
+        }
+        let mut r = q.clone();
+        r.push(n);
+        self.ty(&r, &ge.entry_type);
+      }
+      GroupEntry::TypeGroupname { ge, .. } => {
+        let mut q = p.to_vec();
+        q.push(0);
+        self.add(&q, "TypeGroupnameEntry", addr(ge), CDDLType::TypeGroupnameEntry(ge));
+        let mut n = 0usize;
+        if let Some(o) = &ge.occur {
+          let mut r = q.clone();
+          r.push(n);
+          n += 1;
+          self.add(&r, "Occurrence", addr(o), CDDLType::Occurrence(o));
+        }
+        let mut r = q.clone();
+        r.push(n);
+        n += 1;
+        self.ident(&r, &ge.name);
+        if let Some(g) = &ge.generic_args {
+          let mut r = q.clone();
+          r.push(n);
+          self.gargs(&r, g);
+        }
+      }
+      GroupEntry::InlineGroup { occur, group, .. } => {
+        let mut n = 0usize;
+        if let Some(o) = occur {
+          let mut r = p.to_vec();
+          r.push(n);
+          n += 1;
+          self.add(&r, "Occurrence", addr(o), CDDLType::Occurrence(o));
+        }
+        let mut r = p.to_vec();
+        r.push(n);
+        self.group(&r, group);
+      }
+    }
+  }
+}
+
+fn key_of(t: &CDDLType) -> Key {
+  match t {
+    CDDLType::CDDL(x) => ("CDDL", addr(*x)),
+    CDDLType::Rule(x) => ("Rule", addr(*x)),
+    CDDLType::TypeRule(x) => ("TypeRule", addr(*x)),
+    CDDLType::GroupRule(x) => ("GroupRule", addr(*x)),
+    CDDLType::Group(x) => ("Group", addr(*x)),
+    CDDLType::GroupChoice(x) => ("GroupChoice", addr(*x)),
+    CDDLType::GenericParams(x) => ("GenericParams", addr(*x)),
+    CDDLType::GenericParam(x) => ("GenericParam", addr(*x)),
+    CDDLType::GenericArgs(x) => ("GenericArgs", addr(*x)),
+    CDDLType::GenericArg(x) => ("GenericArg", addr(*x)),
+    CDDLType::GroupEntry(x) => ("GroupEntry", addr(*x)),
+    CDDLType::Identifier(x) => ("Identifier", addr(*x)),
+    CDDLType::Type(x) => ("Type", addr(*x)),
+    CDDLType::TypeChoice(x) => ("TypeChoice", addr(*x)),
+    CDDLType::Type1(x) => ("Type1", addr(*x)),
+    CDDLType::Type2(x) => ("Type2", addr(*x)),
+    CDDLType::Operator(x) => ("Operator", addr(*x)),
+    CDDLType::Occurrence(x) => ("Occurrence", addr(*x)),
+    CDDLType::ValueMemberKeyEntry(x) => ("ValueMemberKeyEntry", addr(*x)),
+    CDDLType::TypeGroupnameEntry(x) => ("TypeGroupnameEntry", addr(*x)),
+    CDDLType::MemberKey(x) => ("MemberKey", addr(*x)),
+    CDDLType::NonMemberKey(x) => ("NonMemberKey", addr(*x)),
+    _ => ("Other", 0),
+  }
+}
+
+pub fn check(c: &CDDL) -> J {
+  let pv = match ParentVisitor::new(c) {
+    Ok(p) => p,
+    Err(e) => return json!({"ok": true, "built": false, "err": e.to_string()}),
+  };
+  let mut w = Walk { paths: HashMap::new(), nodes: vec![] };
+  w.add(&[], "CDDL", addr(c), CDDLType::CDDL(c));
+  for (i, r) in c.rules.iter().enumerate() {
+    let p = vec![i];
+    w.add(&p, "Rule", addr(r), CDDLType::Rule(r));
+    let q = vec![i, 0];
+    match r {
+      Rule::Type { rule, .. } => {
+        w.add(&q, "TypeRule", addr(rule), CDDLType::TypeRule(rule));
+        let mut n = 0usize;
+        let mut r0 = q.clone();
+        r0.push(n);
+        n += 1;
+        w.ident(&r0, &rule.name);
+        if let Some(g) = &rule.generic_params {
+          let mut r1 = q.clone();
+          r1.push(n);
+          n += 1;
+          w.gparams(&r1, g);
+        }
+        let mut r2 = q.clone();
+        r2.push(n);
+        w.ty(&r2, &rule.value);
+      }
+      Rule::Group { rule, .. } => {
+        w.add(&q, "GroupRule", addr(&**rule), CDDLType::GroupRule(rule));
+        let mut n = 0usize;
+        let mut r0 = q.clone();
+        r0.push(n);
+        n += 1;
+        w.ident(&r0, &rule.name);
+        if let Some(g) = &rule.generic_params {
+          let mut r1 = q.clone();
+          r1.push(n);
+          n += 1;
+          w.gparams(&r1, g);
+        }
+        let mut r2 = q.clone();
+        r2.push(n);
+        w.entry(&r2, &rule.entry);
+      }
+    }
+  }
+  let mut out = vec![];
+  for (path, kind, t) in w.nodes.iter() {
+    match t.parent(&pv) {
+      None => out.push(json!({"path": path, "kind": kind, "none": true, "got": [], "gotkind": ""})),
+      Some(p) => {
+        let k = key_of(p);
+        match w.paths.get(&k) {
+          Some(pp) => out.push(json!({"path": path, "kind": kind, "none": false, "got": pp, "gotkind": k.0})),
+          None => out.push(json!({"path": path, "kind": kind, "none": false, "got": [-1], "gotkind": k.0})),
+        }
+      }
+    }
+  }
+  json!({"ok": true, "built": true, "nodes": out})
+}
